@@ -196,6 +196,28 @@ def _run_case(ctx, case) -> F.Outcome:
     zoq.mkdir(exist_ok=True)
     for p in zoq.glob("*.zoq"):
         p.unlink()
+    # the notes directory as the user may have spelled it: canonical, through a symlink, with a
+    # '..' in it, with a doubled slash (all absolute; the saved pages are the same files)
+    zarg = ix.zdir
+    if kind == "zdirform":
+        form = case[1]
+        case = case[2:]
+        kind = case[0]
+        if form == "symlink":
+            zarg = ix.zdir.parent / "lnk"
+            if not zarg.is_symlink():
+                zarg.symlink_to(ix.zdir)
+        elif form == "dotdot":
+            (ix.zdir.parent / "x").mkdir(exist_ok=True)
+            zarg = type(ix.zdir)(str(ix.zdir.parent) + "/x/../" + ix.zdir.name)
+        elif form == "double-slash":
+            zarg = str(ix.zdir.parent) + "//" + ix.zdir.name
+        else:
+            raise H.HarnessError(form)
+        _inner = expand_saved_queries
+
+        def expand_saved_queries(_z, q):  # noqa: F811
+            return _inner(zarg, q)
     if kind == "missing":
         _, qtext = case
         (zoq / "qb.zoq").write_text("# W #t1\n")  # exists: prefix of the missing qb.v3
@@ -359,6 +381,11 @@ def _cases(ctx):
         for i2 in range(len(PLAIN)):
             if i1 != i2:
                 cases.append(["nested-edit", i1, i2, (i1 + i2) % 2 == 0])
+    for fi, form in enumerate(("symlink", "dotdot", "double-slash")):
+        for qi in range(nq):
+            cases.append(["zdirform", form, "ref", (qi + fi) % na, (qi * 3 + fi) % nb, (qi * 5 + fi) % nc, (qi + fi) % 4, qi])
+        for qtext in ("W {nosuch}", "W {qb} {nosuch}", "W {outer}"):
+            cases.append(["zdirform", form, "missing", qtext])
     for qtext in ("W {nosuch}", "W o {nosuch}", "S count(note) W {nosuch} #t1", "W {qb} {nosuch}",
                   "W #t1 | {nosuch}", "W 'first' {nosuch} 'lower'", "W \"a\" {nosuch} \"b\" o", "W {qb.v3}", "W {qb.}", "W {outer}", "W #t1 {outer2}", "W {qb} | {outer}"):
         cases.append(["missing", qtext])
@@ -366,6 +393,8 @@ def _cases(ctx):
 
 
 def _sample(ctx, case):
+    if case[0] == "zdirform":
+        return dict(_sample(ctx, case[2:]), notes_directory_spelled_with=case[1])
     if case[0] == "nested-edit":
         return {"outer": "# S note W {inner} +j1 O priority G file", "inner_first": render_with_refs(PLAIN[case[1]]),
                 "inner_then": render_with_refs(PLAIN[case[2]]), "then_deleted": case[3]}
